@@ -13,6 +13,24 @@ func main() { hc.Main("C01", run) }
 
 var opNames = []string{"and", "or", "not", "xor", "div"}
 
+// applyPaths uses the Paths entry points with each compound operand as a single element
+func applyPaths(op string, p, q *canvas.Path) *canvas.Path {
+	ps, qs := canvas.Paths{p}, canvas.Paths{q}
+	switch op {
+	case "and":
+		return ps.And(qs)
+	case "or":
+		return ps.Or(qs)
+	case "not":
+		return ps.Not(qs)
+	case "xor":
+		return ps.Xor(qs)
+	case "div":
+		return ps.DivideBy(qs)
+	}
+	panic(op)
+}
+
 func apply(op string, p, q *canvas.Path) *canvas.Path {
 	switch op {
 	case "and":
@@ -180,7 +198,17 @@ func run(c *hc.Ctx) {
 			c.Evals++
 			var R *canvas.Path
 			pc, qc := P.Copy(), Q.Copy()
-			if msg := hc.Try(func() { R = apply(op, pc, qc) }); msg != "" {
+			viaPaths := c.Chance(0.25)
+			if viaPaths {
+				c.Count("entry:Paths." + op)
+			}
+			if msg := hc.Try(func() {
+				if viaPaths {
+					R = applyPaths(op, pc, qc)
+				} else {
+					R = apply(op, pc, qc)
+				}
+			}); msg != "" {
 				first := strings.SplitN(msg, "\n", 2)[0]
 				c.Fail("panic:"+op+":"+first, op+" panicked: "+first, map[string]any{"op": op, "P": P.String(), "Q": Q.String()})
 				continue
